@@ -86,7 +86,7 @@ def _explore() -> tuple[list[tuple[list[Any], Any]], Any, dict[str, Any]]:
     return out, w, info
 
 
-def lemmas(ev: Any) -> tuple[list[Any], list[str], dict[str, Any]]:
+def lemmas(ev: Any, prop: str = "C01", only_constructs: bool = False) -> tuple[list[Any], list[str], dict[str, Any]]:
     import flowmark.linewrapping.text_wrapping as tw
     from checks import common as C
     from engines import re2smt
@@ -137,7 +137,7 @@ def lemmas(ev: Any) -> tuple[list[Any], list[str], dict[str, Any]]:
     nq = nunsat = 0
     sat_models: list[dict[str, Any]] = []
     solver_s = 0.0
-    for fam, (rx, _last) in FAMILIES.items():
+    for fam, (rx, _last) in ({} if only_constructs else FAMILIES).items():
         lang = re2smt.fullmatch_lang(re.compile(rx, re.DOTALL))
         for pi, (pc, ret) in enumerate(paths):
             for with_rest in (False, True):
@@ -222,7 +222,7 @@ def lemmas(ev: Any) -> tuple[list[Any], list[str], dict[str, Any]]:
         if shape(doc) != shape(out) or literal_spans(doc) != literal_spans(out):
             confirmed += 1
             key = f"escaper[{sm['family']}]/shape"
-            findings.append(C.Finding("C01", key, f"line-start word {sm['w']!r} (rest {sm['r']!r}) is not protected: {doc!r} at width {width} -> {out!r} ({kind_of_diff(shape(doc), shape(out))})",
+            findings.append(C.Finding(prop, key, f"line-start word {sm['w']!r} (rest {sm['r']!r}) is not protected: {doc!r} at width {width} -> {out!r} ({kind_of_diff(shape(doc), shape(out))})",
                                       {"op": "reformat_text", "text": doc, "kwargs": {"width": width, "semantic": sem, "cleanups": False}, "pred": "shape-equal"}))
         else:
             spec_only += 1
